@@ -54,6 +54,7 @@ package node
 //@   ensures  ascending: tableAscending(r.lookupTable)
 //@ func roundRobinSelector.Pick
 //@   mode int
+//@   timeout 60
 //@   opt uf-mod
 //@   requires r != nil && tableSorted(r.lookupTable)
 //@   inline equal
